@@ -23,7 +23,7 @@ PROPS = {
              GEN + "every accepted query is run through the real engine over the lazy GraphAdapter and compared, as a multiset of rows "
              "(fold elements compared order-insensitively but aligned across outputs), with the naive reference evaluator R. "
              "distinct_nontrivial = distinct directive skeletons among compared cases with >= 1 row and >= 2 language features",
-             quick={"cases": 1500, "timeout": 300},
+             quick={"cases": 3000, "timeout": 300},
              thorough={"cases": 120000, "timeout": 1800},
              floors={"evaluations": 2000, "distinct": 200, "counters": {"compared_with_rows": 500}},
              technique="reference-model runtime monitor (differential against a naive declarative evaluator)"),
@@ -32,7 +32,7 @@ PROPS = {
              "issue #205, lazy chunks of 1-5, prefetch-all, look-ahead-one, mixed per call; neighbor iterators optionally materialised); "
              "row *sequences* must be identical and no panic may occur. An EventLog at the adapter boundary records pull-in/yield-out events; "
              "distinct_nontrivial = distinct interleavings (hash of the event-kind sequence) observed",
-             quick={"cases": 400, "timeout": 300, "args": ["--schedules", "5"]},
+             quick={"cases": 2000, "timeout": 300, "args": ["--schedules", "5"]},
              thorough={"cases": 20000, "timeout": 1800, "args": ["--schedules", "15"]},
              floors={"evaluations": 1000, "distinct": 500, "counters": {"cases_with_3_or_more_resolver_calls": 300}},
              technique="metamorphic runtime monitor over adapter pull schedules, event log at the adapter boundary"),
@@ -40,7 +40,7 @@ PROPS = {
              GEN + "VS only, start sets without duplicates, every query outputs the root's unique id; a counting observer at the source checks after "
              "*every* next(): nothing pulled before the first row is requested; pulled <= index of the contributing start vertex + 1; and no "
              "adapter-boundary event after the result iterator is dropped at a prefix. distinct_nontrivial = distinct (skeleton, #starts) with >= 2 rows and >= 3 starts",
-             quick={"cases": 600, "timeout": 300},
+             quick={"cases": 6000, "timeout": 300},
              thorough={"cases": 40000, "timeout": 1800, "args": ["--max-vertices", "40"]},
              floors={"evaluations": 1000, "distinct": 100, "counters": {"prefixes_checked": 1000, "early_drops_checked": 100}},
              technique="counting monitor at the data source (adapter boundary), checked at every prefix of the result stream"),
@@ -50,7 +50,7 @@ PROPS = {
              "mandatory_edges_with_name on every property and edge (recursively through mandatory edges) and discards every vertex the hints exclude "
              "(membership decided by the harness's own candidate model); row sequences must be identical. '>=' with a tag operand is excluded from the "
              "random stream and replayed from its committed witnesses (listed known finding). distinct_nontrivial = distinct skeletons of cases in which pruning removed >= 1 vertex",
-             quick={"cases": 1000, "timeout": 300},
+             quick={"cases": 10000, "timeout": 300},
              thorough={"cases": 80000, "timeout": 1800},
              floors={"evaluations": 2000, "distinct": 200, "counters": {"vertices_pruned": 1000, "hint:dynamic:Range": 50, "hint:mandatory-edge": 200}},
              technique="metamorphic runtime monitor with an adversarially eager hint-consuming adapter"),
@@ -58,7 +58,7 @@ PROPS = {
              GEN + "biased to tags consumed in other components and fold-count filters; an observer at the adapter boundary checks for every "
              "resolve_property(type, p, info) that p is in info.required_properties() and in every list reported earlier for the same Vid "
              "(ResolveInfo of resolve_starting_vertices / resolve_coercion, ResolveEdgeInfo::destination()). distinct_nontrivial = distinct skeletons with >= 3 property calls",
-             quick={"cases": 600, "timeout": 300},
+             quick={"cases": 6000, "timeout": 300},
              thorough={"cases": 60000, "timeout": 1800},
              floors={"evaluations": 2000, "distinct": 200, "counters": {"resolve_property_calls_checked": 20000}},
              technique="invariant monitor at the adapter boundary"),
@@ -66,7 +66,7 @@ PROPS = {
              GEN + "hostile arguments (invalid regexes, count operands negative / > i64::MAX / u64::MAX, list operands of ordering filters); "
              "every accepted (query, arguments) is executed to exhaustion under catch_unwind with a panic hook; a second pass runs in plain release "
              "(no debug assertions) in the thorough tier; worker aborts are attributed to the announced case. distinct_nontrivial = distinct skeletons executed",
-             quick={"cases": 2500, "timeout": 300},
+             quick={"cases": 10000, "timeout": 300},
              thorough={"cases": 150000, "timeout": 1800, "plainrel": 40000},
              floors={"evaluations": 5000, "distinct": 500, "counters": {"executed_ok": 4000}},
              crash_is_violation=True,
@@ -77,7 +77,7 @@ PROPS = {
              "defined at vid <= use in an enclosing component, imported_tags exactly the enclosing component's tags used inside the fold without "
              "duplicates, variables recorded with compatible types and equal to the harness's independent derivation, outputs unique and local). "
              "distinct_nontrivial = distinct skeletons with >= 2 features",
-             quick={"cases": 2500, "timeout": 300},
+             quick={"cases": 12500, "timeout": 300},
              thorough={"cases": 150000, "timeout": 1800},
              floors={"evaluations": 5000, "distinct": 500, "counters": {"compiled_queries_checked": 4000}},
              technique="structural invariant monitor on every compiled query"),
@@ -86,7 +86,7 @@ PROPS = {
              "hostile pool (every kind incl. Enum, nesting, inner nulls, mixed integer lists) and combinations of several errors; acceptance must equal "
              "(all declared supplied and fits(declared type, value), no undeclared name) with the harness's own fits(), and the error must name exactly "
              "the offending variables. distinct_nontrivial = distinct variable-type signatures with both accepted and refused maps",
-             quick={"cases": 600, "timeout": 300},
+             quick={"cases": 3000, "timeout": 300},
              thorough={"cases": 50000, "timeout": 1800},
              floors={"evaluations": 2000, "distinct": 100, "counters": {"argument_maps_checked": 50000, "maps_accepted": 2000}},
              technique="reference-model runtime monitor on argument validation"),
@@ -95,7 +95,7 @@ PROPS = {
              "@optional, one list level per enclosing fold, that level nullable iff the fold's origin is optional, count = Int! wrapped alike); every "
              "row's key set must equal the declared names and every value must fit its declared type (own fits()). distinct_nontrivial = distinct "
              "skeletons with rows and >= 1 nullable or folded output",
-             quick={"cases": 1500, "timeout": 300},
+             quick={"cases": 6000, "timeout": 300},
              thorough={"cases": 100000, "timeout": 1800},
              floors={"evaluations": 5000, "distinct": 300, "counters": {"rows_checked": 20000}},
              technique="invariant monitor on every result row"),
@@ -112,7 +112,7 @@ PROPS = {
              "schema model checks every adapter call (type defined, property/edge defined on it or __typename, starting edge is a root field, coercion "
              "source is an interface and target implements it, parameter names exactly the declared ones with fitting values) and every context pulled "
              "(active vertex is an instance of type_name). distinct_nontrivial = distinct skeletons with >= 4 adapter calls",
-             quick={"cases": 1000, "timeout": 300},
+             quick={"cases": 5000, "timeout": 300},
              thorough={"cases": 80000, "timeout": 1800},
              floors={"evaluations": 3000, "distinct": 300, "counters": {"adapter_calls_checked": 50000, "contexts_checked": 50000}},
              technique="invariant monitor at the adapter boundary"),
@@ -121,7 +121,7 @@ PROPS = {
              "properties and of other folds' counts), nested folds below, counts tagged and used in siblings; oracles: (i) the reference evaluator R; "
              "(ii) metamorphic: Q vs Q+ which additionally outputs every fold's count and an inner value - projecting the new outputs away the rows must "
              "be identical. distinct_nontrivial = distinct skeletons with count filters and >= 1 row",
-             quick={"cases": 1200, "timeout": 300},
+             quick={"cases": 9600, "timeout": 300},
              thorough={"cases": 80000, "timeout": 1800},
              floors={"evaluations": 5000, "distinct": 150, "counters": {"queries_with_count_filters": 4000, "with_nested_folds": 1000}},
              technique="reference-model + metamorphic runtime monitor"),
@@ -130,7 +130,7 @@ PROPS = {
              "filter; '= $x' == one_of [$x]; F / not-F partition outside optional scopes; rename outputs/tags/aliases; permute properties; permute "
              "edges when no tags) each applied only where the declarative semantics entails it; engine vs engine on row multisets; a pair on which R "
              "also breaks the relation is counted as a relation-scope bug of the harness, never as a violation. distinct_nontrivial = distinct (relation, skeleton) pairs with rows",
-             quick={"cases": 250, "timeout": 400},
+             quick={"cases": 1000, "timeout": 400},
              thorough={"cases": 15000, "timeout": 1800},
              floors={"evaluations": 2000, "distinct": 500, "counters": {"pairs_checked": 5000, "held-with-rows:raise-recurse-depth": 30,
                                                                           "held-with-rows:param-edge-as-filter": 30, "held-with-rows:make-optional": 30}},
@@ -144,7 +144,7 @@ PROPS["C06"] = P("exploration",
     "normalize / exclude_single_value are called through the verif_hooks wrappers and membership of every probe value is compared with the "
     "set-theoretic expectation using the harness's own value order. quick samples pairs; thorough takes the full product (exhaustive over the "
     "domain). distinct_nontrivial = distinct candidates / pairs touched",
-    quick={"cases": 30000, "timeout": 300},
+    quick={"cases": 150000, "timeout": 300},
     thorough={"cases": 0, "timeout": 1800, "args": ["--exhaustive", "1", "--slice", "{i}", "--of", "{n}"]},
     floors={"evaluations": 100000, "distinct": 500},
     technique="reference-model runtime monitor through a guarded hook (set-membership oracle)")
@@ -155,7 +155,7 @@ PROPS["C07"] = P("exploration",
     "and compared with definitions written in the harness (i128 integers, null => false for orderings, null-safe equality, lexicographic lists). "
     "route A: a 169-vertex grid of operand pairs is queried end-to-end once per operator with the right operand as a @tag (slow path) and per "
     "value as a $variable (static / precompiled-regex path) for all 20 operators incl. every negation; the kept vertex set must equal the definition",
-    quick={"cases": 30000, "timeout": 300, "args": ["--slice", "{i}", "--variable-values", "6"]},
+    quick={"cases": 120000, "timeout": 300, "args": ["--slice", "{i}", "--variable-values", "6"]},
     thorough={"cases": 3000000, "timeout": 1800, "args": ["--slice", "{i}", "--variable-values", "40"]},
     floors={"evaluations": 500000, "distinct": 50, "counters": {"grid_queries_tag_route": 50, "grid_queries_variable_route": 200}},
     technique="reference-model runtime monitor (direct calls through a guarded hook + end-to-end operand grids)")
@@ -163,7 +163,7 @@ PROPS["C08"] = P("exploration",
     "all 216 000 triples over a 60-value pool (null, booleans, boundary integers in both representations, finite floats incl. +-0.0 and "
     "subnormals, strings, enums, nested and mixed lists) - exhaustive for the pool - plus random triples: == reflexive/symmetric/transitive, "
     "partial_cmp total/antisymmetric/transitive, a==b <=> cmp=Equal, equal values order alike, integers by i128 value, lists lexicographic",
-    quick={"cases": 100000, "timeout": 300, "args": ["--slice", "{i}", "--of", "{n}"]},
+    quick={"cases": 300000, "timeout": 300, "args": ["--slice", "{i}", "--of", "{n}"]},
     thorough={"cases": 20000000, "timeout": 1800, "args": ["--slice", "{i}", "--of", "{n}"]},
     floors={"evaluations": 216000, "distinct": 60},
     exhaustive=True,
@@ -174,7 +174,7 @@ PROPS["C16"] = P("exploration",
     "tagged RON and JSON (bit-identical), FieldValue->TransparentValue->FieldValue (identity) and untagged JSON text (equal); compiled IRQuery "
     "and IndexedQuery of the query stream through RON and JSON. The harness depends on serde_json with default features only, so it observes "
     "the feature set trustfall_core itself selects",
-    quick={"cases": 8000, "timeout": 300, "args": ["--slice", "{i}"]},
+    quick={"cases": 32000, "timeout": 300, "args": ["--slice", "{i}"]},
     thorough={"cases": 1500000, "timeout": 1800, "args": ["--slice", "{i}"]},
     floors={"evaluations": 50000, "distinct": 300, "counters": {"value-kind:Float64": 20000, "roundtrip-ok:indexedquery-ron": 1000}},
     technique="round-trip runtime monitor")
@@ -195,7 +195,7 @@ PROPS["C18"] = P("exploration",
     "values; both entry points: result rows (BTreeMap<Arc<str>,FieldValue>) and &EdgeParameters obtained from compiled queries. Expectation "
     "(own): integer fits the target range => Ok(exact) else Err; f64 exact; f32 when representable; tuple arity; null only into Option; "
     "int->float and non-representable f32 are left unspecified. distinct_nontrivial = distinct value classes",
-    quick={"cases": 300, "timeout": 300},
+    quick={"cases": 900, "timeout": 300},
     thorough={"cases": 20000, "timeout": 1800},
     floors={"evaluations": 100000, "distinct": 10, "counters": {"decoded_exactly": 10000, "refused_as_expected": 50000}},
     technique="reference-model runtime monitor on the deserialisation entry points")
@@ -207,7 +207,7 @@ PROPS["C10"] = P("exploration",
     "frontend_errors,parse_errors,execution_errors} and of freshly generated valid queries; (b) character-level damage; (c) pure token "
     "noise incl. NUL, BOM, RTL override and astral characters. Nesting <= 24 and length <= 8 KiB. frontend::parse runs under catch_unwind; "
     "worker aborts are attributed to the announced text. distinct_nontrivial = distinct (schema, directive-sequence) shapes sampled + distinct error kinds returned",
-    quick={"cases": 12000, "timeout": 300},
+    quick={"cases": 60000, "timeout": 300},
     thorough={"cases": 1500000, "timeout": 1800},
     floors={"evaluations": 100000, "distinct": 100, "counters": {"rejected": 50000, "accepted": 1000}},
     crash_is_violation=True,
@@ -232,7 +232,7 @@ PROPS["C20"] = P("exploration",
     "filters by name that use the adapter's hint path) compared as multisets with the harness's model; the same battery under the "
     "ContractMonitor (with the harness's model of the meta-schema) plain and under a read-ahead wrapper; and "
     "check_adapter_invariants(meta_schema, SchemaAdapter). distinct_nontrivial = distinct schema shapes",
-    quick={"cases": 25, "timeout": 300},
+    quick={"cases": 100, "timeout": 300},
     thorough={"cases": 1500, "timeout": 1800},
     floors={"evaluations": 2000, "distinct": 10, "counters": {"rows_compared": 10000, "contract_calls_checked": 20000, "invariant_checker_passed": 100}},
     technique="reference-model runtime monitor + contract monitor at the adapter boundary")
@@ -243,7 +243,7 @@ PROPS["C25"] = P("fault_enumeration",
     "at a random one of the 9 contexts; reverse; swap first two; rotate by one) a FaultInjector is handed to the checker, which must panic; "
     "undocumented sites/faults (edges with required parameters, dropping a context) are enumerated and recorded only. Exhaustive over sites "
     "per schema. distinct_nontrivial = distinct (site kind, fault) combinations and schema sizes",
-    quick={"cases": 4, "timeout": 300},
+    quick={"cases": 12, "timeout": 300},
     thorough={"cases": 120, "timeout": 1800},
     floors={"evaluations": 3000, "distinct": 12, "counters": {"documented_fault_caught": 3000, "fault_free_runs_passed": 16}},
     technique="fault injection at the adapter boundary, exhaustive over documented sites per schema")
@@ -692,7 +692,78 @@ def c27_driver(chk, pid, tier, seed, spec, t0):
     return chk.finish(pid, tier, seed, spec, t0, m, notes)
 
 
-CUSTOM = {"C14": c14_driver, "C24": c24_driver, "C26": c26_driver, "C27": c27_driver}
+
+def fuzz_stage(chk, pid, target, seed, seconds, binary):
+    """thorough stage for C10 / C19: libFuzzer (cargo-fuzz, ASan build) finds inputs, tfv re-runs every artifact under the panic monitor"""
+    def stage(m):
+        import os, subprocess, json, shutil, re
+        F = os.path.join(chk.HARNESS, "fuzz")
+        base = os.path.join(chk.WORK, "fuzz", pid)
+        shutil.rmtree(base, ignore_errors=True)
+        corpus, arts = os.path.join(base, "corpus"), os.path.join(base, "artifacts")
+        os.makedirs(corpus); os.makedirs(arts)
+        env = dict(chk.ENV, CARGO_TARGET_DIR=os.path.join(chk.WORK, "target-fuzz"))
+        note = {"target": target, "seconds_requested": seconds}
+        rep0 = os.path.join(base, "corpus.json")
+        subprocess.run([binary, "fuzz-corpus", "--target", pid, "--seed", str(seed), "--outdir", corpus, "--out", rep0], cwd=chk.VERIF, env=chk.ENV,
+                       stdout=subprocess.PIPE, stderr=subprocess.PIPE, text=True, timeout=300)
+        note["corpus_seeds"] = len(os.listdir(corpus))
+        shutil.copy("/repo/trustfall_core/fuzz/Cargo.lock", os.path.join(F, "Cargo.lock"))
+        b = subprocess.run(["cargo", "+nightly", "fuzz", "build", target], cwd=F, env=env, stdout=subprocess.PIPE, stderr=subprocess.PIPE, text=True, timeout=1800)
+        if b.returncode != 0:
+            chk.log(b.stderr[-3000:])
+            m["inconclusive"].append("cargo fuzz build failed")
+            return note
+        try:
+            r = subprocess.run(["cargo", "+nightly", "fuzz", "run", target, corpus, "--", f"-max_total_time={seconds}", "-timeout=10", "-max_len=8192",
+                                "-fork=16", "-ignore_crashes=1", "-ignore_timeouts=1", "-ignore_ooms=1", f"-seed={seed}", f"-artifact_prefix={arts}/"],
+                               cwd=F, env=env, stdout=subprocess.PIPE, stderr=subprocess.PIPE, text=True, timeout=seconds + 600)
+            lines = re.findall(r"#(\d+): cov: (\d+) ft: (\d+) corp: (\d+) exec/s:? (\d+) oom/timeout/crash: (\d+)/(\d+)/(\d+)", r.stderr)
+            if lines:
+                last = lines[-1]
+                note.update({"executions": int(last[0]), "coverage_edges": int(last[1]), "features": int(last[2]), "corpus_size": int(last[3]),
+                             "oom_timeout_crash": [int(last[5]), int(last[6]), int(last[7])]})
+            else:
+                note["libfuzzer_tail"] = r.stderr[-400:]
+        except subprocess.TimeoutExpired:
+            m["inconclusive"].append("fuzz stage hit the watchdog")
+            return note
+        note["artifacts"] = len(os.listdir(arts))
+        rep = os.path.join(base, "triage.json")
+        subprocess.run([binary, "fuzz-triage", "--target", pid, "--dir", arts, "--out", rep, "--replay-dir", chk.REPLAYS], cwd=chk.VERIF, env=chk.ENV,
+                       stdout=subprocess.PIPE, stderr=subprocess.PIPE, text=True, timeout=600)
+        if os.path.exists(rep):
+            j = json.load(open(rep))
+            m["violations"].extend(j.get("violations", []))
+            note["triage"] = j.get("counters", {})
+        elif note["artifacts"]:
+            m["inconclusive"].append("artifact triage failed")
+        if note.get("executions", 0) < 10000:
+            m["inconclusive"].append(f"fuzz stage executed only {note.get('executions', 0)} inputs")
+        m["evaluations"] += note.get("executions", 0)
+        return note
+    return stage
+
+
+def fuzzed_driver(target):
+    def drv(chk, pid, tier, seed, spec, t0):
+        binary = chk.build()
+        if binary is None:
+            chk.write_evidence(pid, tier, seed, spec["level"], {"evaluations": 0, "distinct_nontrivial": 0, "rule": spec["rule"], "samples": [],
+                                                              "inconclusive": ["harness build failed"]}, 0, 0, spec["assumptions"])
+            print(f"INCONCLUSIVE property={pid} reason=harness build failed (see stderr)")
+            return 2
+        secs = spec[tier].get("fuzz_seconds", 0)
+        stages = [("libfuzzer_stage", fuzz_stage(chk, pid, target, seed, secs, binary))] if secs else None
+        return chk.standard_run(binary, pid, tier, seed, spec, t0, extra_stages=stages)
+    return drv
+
+
+PROPS["C10"]["thorough"]["fuzz_seconds"] = 180
+PROPS["C19"]["thorough"]["fuzz_seconds"] = 120
+PROPS["C10"]["technique"] = "panic monitor over generative text fuzzing (catch_unwind + worker-crash detection); thorough adds coverage-guided libFuzzer+ASan with artifacts re-judged by the same monitor"
+PROPS["C19"]["technique"] = "reference-model + panic monitor over mutated schema documents; thorough adds coverage-guided libFuzzer+ASan (panic part) with artifacts re-judged by the same monitor"
+CUSTOM = {"C14": c14_driver, "C24": c24_driver, "C26": c26_driver, "C27": c27_driver, "C10": fuzzed_driver("c10_frontend"), "C19": fuzzed_driver("c19_schema")}
 
 # reasons for properties that are not claimed (kept current; empty when everything is claimed)
 NOT_CLAIMED = {}
